@@ -255,6 +255,14 @@ def register(R):
                                   s2.sim_timestep_duration_seconds == a.sim.sim_timestep_duration_seconds,
                                   s2.applied_instructions == a.sim.applied_instructions))
 
+    def JOINS_NOW(a, r):
+        # C18 (first come first served is by time of joining): a vehicle that joins a charging queue in this update records
+        # the current simulation time as its enqueue time
+        s2 = r[1].val()
+        vs2 = s2.vehicles.get(a.self.vehicle_id).val().vehicle_state
+        joined = And(ok(r), s2.vehicles.has(a.self.vehicle_id), vs2.is_a("ChargeQueueing"), Not(as_union(a.self).is_a("ChargeQueueing")))
+        return Implies(joined, vs2.as_a("ChargeQueueing").enqueue_time == a.sim.sim_time)
+
     def PU_PLUGS(a, r):
         # an update never changes plug counts, queue counters, prices or the set of stations (only balances / energy)
         return Implies(ok(r), same_state_maps(r[1].val().stations, a.sim.stations))
@@ -270,6 +278,10 @@ def register(R):
         s.ensures("activity_kept", (lambda cname: lambda a, r: Implies(ok(r), Or(
             r[1].val().vehicles.get(a.self.vehicle_id).val().vehicle_state.is_a(cname),
             r[1].val().vehicles.get(a.self.vehicle_id).val().vehicle_state.is_a("OutOfService"))))(cname), ("C18", "C06"))
+        s.ensures("place_in_queue_kept", lambda a, r: Implies(
+            And(ok(r), as_union(a.self).is_a("ChargeQueueing"), r[1].val().vehicles.get(a.self.vehicle_id).val().vehicle_state.is_a("ChargeQueueing")),
+            r[1].val().vehicles.get(a.self.vehicle_id).val().vehicle_state.as_a("ChargeQueueing").enqueue_time
+            == as_union(a.self).as_a("ChargeQueueing").enqueue_time), ("C18",))
         s.ensures("counts_stay_matched", PU_POST, ("C02",))
         s.uses_lemma("L1 sum point-update (lemmas/L1.lean)", PU_L1)
         s.ensures("only_this_vehicle", PU_FRAME, ("C02", "C15", "C08"))
@@ -281,6 +293,7 @@ def register(R):
         s.requires("wf", WF_PRE).requires("inv02", INV02_PRE).requires("current", CURRENT)
         s.ensures("shape", SHAPE, ("C09",))
         s.ensures("step_ok", STEP_POST, ("C02", "C15", "C08"))
+        s.ensures("joins_queue_at_current_time", JOINS_NOW, ("C18",))
         if cname in ("DispatchPoolingTrip", "ServicingPoolingTrip"):
             s.assume_only("pooling state update: body out of reach")
     R.virtual("VehicleState", "_perform_update")
